@@ -6,7 +6,7 @@ SPEC = {
     "level": "fault_enumeration",
     "parts": [part("c10_params", "asan", ["c10_params.cpp"], ldflags=_WRAP,
                    timeout={"quick": 1500, "thorough": 7200})],
-    "rule": "phase 0: six listed complete configurations that the keyword-by-keyword enumeration does not produce (descending atom ranges, too few "
+    "rule": "phase 0: eight listed complete configurations that the keyword-by-keyword enumeration does not produce (two valid ones whose pair-list array is sized from a group that can be empty; descending atom ranges, too few "
             "reference positions with atomPermutation, timeStepFactor 0 with an extended coordinate, colvarsTrajFrequency 2^61), each in its own child: "
             "refused with a message, never fatal; then corpus = every loadable tests/input_files/*/test.in plus the harness's feature-rich configurations "
             "(harness/c10_extras.h), all checked to load and run cleanly; the keyword registry of every object type "
